@@ -631,6 +631,31 @@ fn check_case(c: &Case) -> Outcome {
             c.ty
         ));
     }
+    // content left after the document: a flow collection or quoted scalar at the root ends where
+    // it ends - a second root node behind it (without any marker) is surplus content, which the
+    // single-document entry points must report whatever the first node is worth
+    let root_closed = match &c.doc.kind {
+        Kind::Seq { flow, items } => *flow || c.layout.force_flow || items.is_empty(),
+        Kind::Map { flow, entries } => *flow || c.layout.force_flow || entries.is_empty(),
+        Kind::Scalar { style, .. } => matches!(style, Style::Double | Style::Single),
+        _ => false,
+    };
+    if root_closed && got.is_ok() && text.ends_with('\n') {
+        let twice = format!("{text}{text}");
+        let rs: [(&str, Result<DV, serde_saphyr::Error>); 4] = ds::with_ty(&c.ty, || {
+            [
+                ("with_deserializer_from_str", serde_saphyr::with_deserializer_from_str(&twice, |d| D(&c.ty).deserialize(d))),
+                ("from_str", serde_saphyr::from_str::<ds::Dyn>(&twice).map(|d| d.0)),
+                ("from_slice", serde_saphyr::from_slice::<ds::Dyn>(twice.as_bytes()).map(|d| d.0)),
+                ("from_reader", serde_saphyr::from_reader::<_, ds::Dyn>(std::io::Cursor::new(twice.as_bytes())).map(|d| d.0)),
+            ]
+        });
+        for (name, r) in &rs {
+            if let Ok(v) = r {
+                return Outcome::Fail(format!("{name} accepts a second root node behind the document as {v:?} (type {:?}, text {twice:?})", c.ty));
+            }
+        }
+    }
     match (&verdict, &got) {
         (V::MustErr, Ok(v)) => Outcome::Fail(format!("shape mismatch accepted as {v:?} (type {:?}, document {text:?})", c.ty)),
         (V::MustErr, Err(_)) => Outcome::Pass,
